@@ -32,8 +32,9 @@ def out_bound(level):
 class Check(PropertyCheck):
     pid = "C13"
     props_module = "Properties.Properties_C13"
-    extra_targets = ["Extract/ExtractSchedC.vo"]
-    gen_files = ["SchedCTab.v"]
+    extra_targets = ["Extract/ExtractSchedC.vo"] + (list(getattr(schedx_part, "extra_targets", [])) if schedx_part else [])
+    gen_files = ["SchedCTab.v"] + (list(getattr(schedx_part, "gen_files", [])) if schedx_part else [])
+    extra_props = list(getattr(schedx_part, "extra_props_c13", [])) if schedx_part else []
     trusted_base = [
         "Coq 8.16.1 kernel (coqc); vm_compute in one Example; no axioms",
         "translator lib/gen_schedc.py: slot formulas, capacities, encoder_alloc_size expression, sizeof of struct in_blk / "
@@ -131,11 +132,17 @@ class Check(PropertyCheck):
                            sizes, ns, out_bound(level), LIBC_SLACK) +
                        ("" if schedx_part else "; decompression part (area SchedX) not present: compression only"),
                "samples": [list(j) for j in js[:3]], "histogram": {"measurements": table, "replay_failures": fails}}
-        if schedx_part and hasattr(schedx_part, "correspond_mem_x"):
+        if schedx_part:
             try:
-                cov["decompression"] = schedx_part.correspond_mem_x(self)
+                cx = schedx_part.correspond_x(self) or {}
+                cov["decompression"] = {k: v for k, v in cx.items() if k != "samples"}
+                cov["evaluations"] += int(cx.get("evaluations", 0))
+                cov["distinct_nontrivial"] += int(cx.get("distinct_nontrivial", 0))
+                cov["rule"] += " || decompression: " + str(cx.get("rule", ""))[:1200]
+            except vlib.BuildError:
+                raise
             except Exception as e:
-                self.notes.append("schedx_part.correspond_mem_x crashed: %r" % (e,))
+                self.broken.append(Broken("correspondence", "schedx_part.correspond_x crashed", repr(e)[:500]))
         return cov
 
     def direct(self):
@@ -155,6 +162,10 @@ class Check(PropertyCheck):
             peaks.setdefault((kind, n, ultra), []).append((mb, m["peak"]))
         # "flat in the input size" = the same fixed bound B(n) holds for every input size measured above; the
         # series per (data, n) is recorded in the evidence histogram (how full the pipeline gets is timing dependent)
+        if schedx_part and not getattr(self, "_x_done", False):
+            self._x_done = True
+            # decompression: peak live heap against B(n), leaked unord blocks (F3), crashes of the replayed runs
+            v += [x for x in (schedx_part.direct_x(self, leaks=True) or [])]
         return v[:4]
 
     def search(self):
@@ -169,7 +180,10 @@ class Check(PropertyCheck):
             kind, mb, n, ultra = jobs[k]
             return self.measure(exe, blk * mb, n, 9, "s%d" % k, extra=("--sequential",) if ultra else ())
         self.meas = list(zip(jobs, L.pmap(one, list(range(len(jobs))), par=4)))
-        return self.direct()
+        found = self.direct()
+        if schedx_part and not found:
+            found += schedx_part.search_x(self) or []
+        return found
 
     def replay(self, path):
         p = json.load(open(path))
